@@ -77,6 +77,14 @@ pub struct Report {
 
 impl Report {
     pub fn new(property: &'static str, level: &'static str, tier: Tier, seed: u64) -> Self {
+        // replays of an earlier run of this property are stale
+        if let Ok(rd) = std::fs::read_dir("/verif/replays") {
+            for e in rd.flatten() {
+                if e.file_name().to_string_lossy().starts_with(&format!("{property}-")) {
+                    let _ = std::fs::remove_file(e.path());
+                }
+            }
+        }
         Self {
             property,
             level,
